@@ -36,6 +36,27 @@ impl DiagnosticManager {
         self.diagnostics.is_empty()
     }
 
+    /// Keep the first of every group of diagnostics that agree in kind, place
+    /// and message: several lints, call sites or functions can arrive at the
+    /// same statement about the same piece of text.
+    pub fn dedup(&mut self) {
+        let mut seen = Vec::new();
+        self.diagnostics.retain(|diagnostic| {
+            let key = (
+                diagnostic.get_error_code(),
+                diagnostic.file(),
+                diagnostic.range(),
+                diagnostic.get_long_description(),
+            );
+            if seen.contains(&key) {
+                false
+            } else {
+                seen.push(key);
+                true
+            }
+        });
+    }
+
     pub fn iter(&self) -> std::slice::Iter<Box<dyn IsSomeDisplayableDiagnostic>> {
         self.diagnostics.iter()
     }
